@@ -59,6 +59,10 @@ type SliceVal struct {
 	// cells modelled); symCap likewise for the capacity. Such slices are materialised lazily.
 	symLen *Term
 	symCap *Term
+	// lazyCap != nil (only with symLen == nil): the true capacity is this BV64 term, cap is the
+	// number of physical cells; decided at the uses of the capacity (cap(), append, reslicing
+	// beyond the length) instead of being enumerated when the length is materialised.
+	lazyCap *Term
 }
 
 type StructVal struct {
@@ -432,17 +436,29 @@ func (ex *Exec) mat(s *SliceVal) *SliceVal {
 		panic(pathEnd{kind: "bound", msg: fmt.Sprintf("slice of symbolic length materialised at %d elements, beyond the %d modelled cells", n, s.len)})
 	}
 	c := s.cap
+	var lazy *Term
 	if s.symCap != nil {
 		if s.symCap == s.symLen {
 			c = n
 		} else {
-			c = int(ex.Concretize(s.symCap, "slice capacity"))
-			if c > s.cap {
-				c = s.cap
-			}
+			// capacity and length are different symbolic quantities (a buffer of input-chosen
+			// size resliced to what is left to read): keep the capacity symbolic
+			lazy = s.symCap
 		}
 	}
-	return &SliceVal{arr: s.arr, off: s.off, len: n, cap: c}
+	return &SliceVal{arr: s.arr, off: s.off, len: n, cap: c, lazyCap: lazy}
+}
+
+// forceCap gives a slice with a lazily-known capacity a concrete one (case split).
+func (ex *Exec) forceCap(s *SliceVal) {
+	if s == nil || s.lazyCap == nil {
+		return
+	}
+	c := int(ex.Concretize(s.lazyCap, "slice capacity"))
+	if c < s.cap {
+		s.cap = c
+	}
+	s.lazyCap = nil
 }
 
 func (ex *Exec) matArgs(args []Value) {
